@@ -29,9 +29,19 @@ def _expand(e, pos, z3, S):
         guard = None
         if e.is_forall() and z3.is_implies(body):
             guard, inner = body.arg(0), body.arg(1)
-        elif e.is_forall() and z3.is_or(body) and z3.is_not(body.arg(0)):
-            guard = body.arg(0).arg(0)
-            inner = z3.Or(*body.children()[1:]) if body.num_args() > 2 else body.arg(1)
+        elif e.is_forall() and z3.is_or(body):
+            # (not guard) or rest, with the guard anywhere among the disjuncts
+            ch = body.children()
+            gi = None
+            for i, c in enumerate(ch):
+                if z3.is_not(c) and z3.is_and(c.arg(0)) and any(k.eq(x) for cc in c.arg(0).children() for x in ([cc.arg(0), cc.arg(1)] if cc.num_args() == 2 else ([cc.arg(0).arg(0), cc.arg(0).arg(1)] if z3.is_not(cc) and cc.arg(0).num_args() == 2 else []))):
+                    gi = i
+                    break
+            if gi is None:
+                return None
+            guard = ch[gi].arg(0)
+            rest = [c for i, c in enumerate(ch) if i != gi]
+            inner = z3.Or(*rest) if len(rest) > 1 else rest[0]
         elif (not e.is_forall()) and z3.is_and(body):
             guard, inner = body.arg(0), z3.And(*body.children()[1:]) if body.num_args() > 2 else body.arg(1)
         else:
@@ -91,8 +101,14 @@ def _expand(e, pos, z3, S):
         a = _expand(e.arg(0), not pos, z3, S)
         b = _expand(e.arg(1), pos, z3, S)
         return None if a is None or b is None else z3.Implies(a, b)
+    if z3.is_eq(e) and e.num_args() == 2 and z3.is_bool(e.arg(0)):
+        from .engine import has_quant
+        if has_quant(e):
+            a, b = e.arg(0), e.arg(1)
+            return _expand(z3.And(z3.Implies(a, b), z3.Implies(b, a)), pos, z3, S)
+        return e
     if z3.is_app(e) and e.num_args() and z3.is_bool(e):
-        # ite / iff / other boolean structure containing quantifiers: only safe when no quantifier inside
+        # ite / other boolean structure containing quantifiers: only safe when no quantifier inside
         from .engine import has_quant
         if has_quant(e):
             return None
@@ -100,6 +116,17 @@ def _expand(e, pos, z3, S):
 
 
 def small_scope(smt2, timeout_ms=10000):
+    """progressive scopes: a model found at any scope is a genuine model of the original query"""
+    last = ("unknown", "")
+    for S, tmo in ((2, 4000), (5, 6000), (SCOPE, timeout_ms)):
+        r = _small_scope(smt2, tmo, S)
+        if r[0] == "sat":
+            return r
+        last = r
+    return last
+
+
+def _small_scope(smt2, timeout_ms, SCOPE):
     """Refutation mode (DESIGN 2.2): add the small-scope hypothesis and expand the universal quantifiers over it.
     'sat' is a genuine model of the original query (a small instance); anything else proves nothing."""
     import z3
